@@ -1,0 +1,89 @@
+//go:build verif
+
+// Contracts for package clause (comment-only; compiled only under the verif tag).
+// Syntax and semantics: /verif/DESIGN.md section 2.2.
+package clause
+
+//@ package gorm.io/gorm/clause
+
+//@ iface Interface.MergeClause(recv, clause)
+//@   tags C06
+//@   modifies *clause
+
+//@ func (Limit).MergeClause
+//@   tags C15
+//@   modifies *clause
+//@   let o = clause.Expression
+//@   ensures name: clause.Name == ""
+//@   ensures kind: is(clause.Expression, Limit)
+//@   ensures limit-merged: is(o, Limit) ==> clause.Expression.(Limit).Limit == ite(limit.Limit != nil && *limit.Limit != 0, limit.Limit, ite(o.(Limit).Limit != nil, o.(Limit).Limit, limit.Limit))
+//@   ensures offset-merged: is(o, Limit) ==> clause.Expression.(Limit).Offset == ite(limit.Offset > 0, limit.Offset, ite(limit.Offset == 0 && o.(Limit).Offset > 0, o.(Limit).Offset, 0))
+//@   ensures first: !is(o, Limit) ==> clause.Expression.(Limit) == limit
+
+//@ # ---------- SQL generation writes only builder state (C06 frame part of Build) ----------
+//@ iface Expression.Build(recv, builder)
+//@   tags C06
+//@   modifies region(builder)
+//@   skip-impl (NamedExpr).Build its local map and scratch slice are captured by a recursive closure stored in a local; the engine's escape analysis cannot keep them across builder calls
+//@ iface NegationExpressionBuilder.NegationBuild(recv, builder)
+//@   tags C06
+//@   modifies region(builder)
+//@ iface Builder.WriteQuoted(recv, field)
+//@   modifies region(recv)
+//@ iface Builder.AddVar(recv, w, vars)
+//@   modifies region(recv)
+//@ iface Builder.AddError(recv, err)
+//@   modifies region(recv)
+//@ iface Writer.WriteByte(recv, c)
+//@   modifies region(recv)
+//@ iface Writer.WriteString(recv, s)
+//@   modifies region(recv)
+//@ fnfield Clause.Builder(c, builder)
+//@   modifies region(builder)
+//@ func buildExprs
+//@   tags C06
+//@   modifies region(builder)
+//@ iface Interface.Name(recv)
+//@   pure
+
+//@ func (Where).MergeClause
+//@   tags C09 C02
+//@   modifies *clause
+//@   let o = clause.Expression
+//@   ensures name-kept: clause.Name == old(clause.Name)
+//@   ensures order: is(o, Where) ==> forall(k, 0, len(o.(Where).Exprs), clause.Expression.(Where).Exprs[k] == old(o.(Where).Exprs[k])) && forall(j, len(o.(Where).Exprs), len(o.(Where).Exprs) + len(where.Exprs), clause.Expression.(Where).Exprs[j] == old(where.Exprs[j - len(o.(Where).Exprs)]))
+//@   ensures stays-where: is(clause.Expression, Where)
+//@   ensures concatenates: is(o, Where) ==> len(clause.Expression.(Where).Exprs) == len(o.(Where).Exprs) + len(where.Exprs)
+//@   ensures first: !is(o, Where) ==> clause.Expression.(Where) == where
+
+//@ # ---------- C02: condition constructors (K1) ----------
+//@ func And
+//@   tags C02
+//@   modifies nothing
+//@   ensures empty-is-no-condition: len(exprs) == 0 ==> result == nil
+//@   ensures single-unit-stays-itself: len(exprs) == 1 && !is(exprs[0], OrConditions) ==> result == exprs[0]
+//@   ensures group: len(exprs) > 1 || (len(exprs) == 1 && is(exprs[0], OrConditions)) ==> is(result, AndConditions) && result.(AndConditions).Exprs == exprs
+//@ func Or
+//@   tags C02
+//@   modifies nothing
+//@   ensures empty-is-no-condition: len(exprs) == 0 ==> result == nil
+//@   ensures group: len(exprs) > 0 ==> is(result, OrConditions) && result.(OrConditions).Exprs == exprs
+//@ func Not
+//@   tags C02
+//@   modifies nothing
+//@   ensures empty-is-no-condition: len(exprs) == 0 ==> result == nil
+//@   ensures and-group-is-negated-memberwise: len(exprs) == 1 && is(exprs[0], AndConditions) ==> is(result, NotConditions) && result.(NotConditions).Exprs == exprs[0].(AndConditions).Exprs
+//@   ensures otherwise-negates-the-units: len(exprs) > 1 || (len(exprs) == 1 && !is(exprs[0], AndConditions)) ==> is(result, NotConditions) && result.(NotConditions).Exprs == exprs
+//@ func rawNeedsParentheses
+//@   tags C06
+//@   modifies nothing
+
+//@ # ---------- C01: template expansion ----------
+//@ func (Expr).Build
+//@   tags C01 safety
+//@   loop 1 invariant cursor-in-range: 0 <= idx && idx <= len(expr.Vars)
+//@ site valuers-are-bound-whole
+//@   match call reflect.ValueOf
+//@   in clause.(Expr).Build
+//@   min-sites 1
+//@   assert not-a-valuer: !is(arg0, driver.Valuer) [C01]
